@@ -86,13 +86,13 @@ type UpServer struct {
 	// ConnAbandoned is when the proxy closed its end of a stream connection
 	// (simulator knowledge; earlier than ConnGone by the latency of the FIN).
 	ConnAbandoned map[int]time.Duration
-	connSeq  int
-	conns    map[int]*upConn
-	ln       *vnet.TCPListener
-	uc       *vnet.UDPConn
-	hs       *http.Server
-	down     bool
-	extra    []io.Closer
+	connSeq       int
+	conns         map[int]*upConn
+	ln            *vnet.TCPListener
+	uc            *vnet.UDPConn
+	hs            *http.Server
+	down          bool
+	extra         []io.Closer
 }
 
 type upConn struct {
